@@ -669,10 +669,31 @@ class Calls(Interp):
             return VClass(v.cls)
         raise Unsupported("type(x)")
 
+    def bi_max(self, args, kwargs, node):
+        return self._minmax(args, kwargs, True)
+
+    def bi_min(self, args, kwargs, node):
+        return self._minmax(args, kwargs, False)
+
+    def _minmax(self, args, kwargs, is_max):
+        if kwargs or len(args) < 2 or not all(isinstance(a, (VInt, VReal)) for a in args):
+            raise Unsupported("max/min of this shape")
+        real = any(isinstance(a, VReal) for a in args)
+        cur = args[0]
+        for a in args[1:]:
+            x = z3.ToReal(cur.t) if real and isinstance(cur, VInt) else cur.t
+            y = z3.ToReal(a.t) if real and isinstance(a, VInt) else a.t
+            t = z3.If((y > x) if is_max else (y < x), y, x)
+            cur = VReal(t) if real else VInt(t)
+        return cur
+
     def bi_bool(self, args, kwargs, node):
         return VBool(self.truth(args[0])) if args else VBool(False)
 
     def bi_int(self, args, kwargs, node):
+        if args and isinstance(args[0], VReal):
+            r = args[0].t       # int(float) truncates toward zero
+            return VInt(z3.If(r >= 0, z3.ToInt(r), -z3.ToInt(-r)))
         if args and isinstance(args[0], (VInt, VBool)):
             return VInt(args[0].t if isinstance(args[0], VInt) else z3.If(args[0].t, 1, 0))
         raise Unsupported("int(x)")
